@@ -397,20 +397,28 @@ def RoomNode.placingOk (r : RoomNode) : Bool :=
 
 /-- the candidate after the merge: its own room row (to be written over the stored slot), the stored
     references pushed and sorted by date, the merged and sorted admin entries, the merged groups -/
-def mergedNode (old cand : RoomNode) (admins : List SRow) (auths : List AuthNode) : RoomNode :=
-  { node := { cand.node with stored := true },
+def mergedNode (node : SRow) (old cand : RoomNode) (admins : List SRow) (auths : List AuthNode) : RoomNode :=
+  { node := node,
     adminEdges := sortAsc (·.cdate) (mergeEdges old.adminEdges cand.adminEdges),
     adminNodes := sortAsc (·.mdate) admins,
     authEdges := mergeEdges old.authEdges cand.authEdges, authNodes := auths }
 
+/-- the room row that will be written over the stored slot. As written: the candidate's, whatever it
+    is. Intended: the candidate's when it equals the stored one or is a newer `sys.Room` row signed by
+    an admin; the stored one when the candidate's is older (a peer that lags behind); refused otherwise. -/
+def roomRowFor (d : Defects) (room : RoomT) (old cand : RoomNode) : Except RErr SRow :=
+  if d.roomRowUnchecked || rowEq cand.node old.node then .ok { cand.node with stored := true }
+  else if old.node.mdate < cand.node.mdate then
+    if cand.node.ent = 100 && room.isAdmin cand.node.author cand.node.mdate then .ok { cand.node with stored := true }
+    else .error .notAuthorised
+  else .ok { old.node with stored := true }
+
 /-- `prepare_room_with_history`: `none` = the panic of `prepare_auth_with_history`;
     otherwise the merged candidate and "has changes" -/
 def prepareWithHistory (d : Defects) (room : RoomT) (old cand : RoomNode) : Option (Except RErr (RoomNode × Bool)) :=
-  if !d.roomRowUnchecked &&
-     !(rowEq cand.node old.node ||
-       (old.node.mdate < cand.node.mdate && cand.node.ent = 100 && room.isAdmin cand.node.author cand.node.mdate)) then
-    some (.error .notAuthorised)
-  else
+  match roomRowFor d room old cand with
+  | .error e => some (.error e)
+  | .ok node =>
   match mergeRows old.adminNodes cand.adminNodes with
   | .error e => some (.error e)
   | .ok a0 =>
@@ -424,9 +432,9 @@ def prepareWithHistory (d : Defects) (room : RoomT) (old cand : RoomNode) : Opti
         match checkNewAuths d room1 old.authNodes auths with
         | .error e => some (.error e)
         | .ok upd2 =>
-          match (mergedNode old cand a0 auths).parse with
+          match (mergedNode node old cand a0 auths).parse with
           | .error e => some (.error e)
-          | .ok _ => some (.ok (mergedNode old cand a0 auths, upd || upd2))
+          | .ok _ => some (.ok (mergedNode node old cand a0 auths, upd || upd2))
 
 /-! ### tables, `RoomNode::read`, `RoomNode::write`, `add_room_node` -/
 
